@@ -4,7 +4,7 @@ import PPProofs.Lemmas.ParseTerm
   `NHge p e L` — the nested call does not hang at locations `≥ L` — which is what a lexicographic induction on
   (remaining input, rank) can supply.  Covers try_parse / can_parse_next, pre-parsing, `And` (with the sharper statement:
   operands after one that consumed are needed from `loc + 1` on only, and only while `loc ≤ len`), `MatchFirst`, `Or`,
-  repetition, plain enhancement, `parseImpl`, `parseStep`.  NOT ported: `SkipTo` (excluded by `NodeOkGe.noSkip`).
+  repetition, `SkipTo`, plain enhancement, `parseImpl`, `parseStep`.
 -/
 namespace PP.Parse
 
@@ -442,6 +442,100 @@ theorem manyImpl_nohang_ge {p : P} (hadv : Adv p) (nd : Node) (acts : Bool) (sle
     | idx => simp
     | hang => exact absurd ht this
 
+/-! ### SkipTo -/
+
+theorem ignLoop_nohang_ge {slen : Nat} {p : P} (hadv : Adv p) (hb : BndAll slen p) {i L : Nat} (hi : NHge p i L) :
+    ∀ k t, L ≤ t → 1 ≤ k → slen + 2 ≤ k + t → ignLoop p i k t ≠ .inl .hang := by
+  intro k
+  induction k with
+  | zero => intro t _ h1; omega
+  | succ k ih =>
+    intro t hL _ h2
+    unfold ignLoop
+    have hnh := tryParse_nohang_ge hi t hL false false
+    have hbd := tryParse_bnd (hb (max t (slen + 1)) (by omega)) i t false false (by omega)
+    cases h0 : tryParse p i t false false with
+    | ok l ts =>
+      rw [h0] at hbd
+      have hu : l ≤ max t (slen + 1) := hbd
+      have hge := tryParse_adv hadv h0
+      simp only
+      split
+      · simp
+      · rename_i hc
+        have hne : l ≠ t := by intro heq; apply hc; simp [heq]
+        exact ih _ (by omega) (by omega) (by omega)
+    | fail c l => simp
+    | idx => simp
+    | hang => exact absurd h0 hnh
+
+theorem failOnCheck_nohang_ge {p : P} {fo : Option Nat} {L : Nat} (hp : ∀ n, fo = some n → NHge p n L) (t : Nat)
+    (hL : L ≤ t) : failOnCheck p fo t ≠ none := by
+  unfold failOnCheck
+  cases fo with
+  | none => simp
+  | some n => exact canParseNext_nohang_ge (hp n rfl) _ hL _
+
+theorem ignStep_nohang_ge {slen : Nat} {p : P} (hadv : Adv p) (hb : BndAll slen p) {ig : Option Nat} {L : Nat}
+    (hi : ∀ n, ig = some n → NHge p n L) (t : Nat) (hL : L ≤ t) : ignStep p slen ig t ≠ .inl .hang := by
+  unfold ignStep
+  cases ig with
+  | none => simp
+  | some i => exact ignLoop_nohang_ge hadv hb (hi i rfl) _ _ hL (by omega) (by omega)
+
+theorem skipScan_nohang_ge {p : P} (slen x : Nat) (fo ig : Option Nat) (loc0 : Nat) {L : Nat} (hadv : Adv p)
+    (hb : BndAll slen p) (hx : NHge p x L) (hfo : ∀ n, fo = some n → NHge p n L) (hig : ∀ n, ig = some n → NHge p n L) :
+    ∀ k t, L ≤ t → skipScan p slen x fo ig loc0 k t ≠ .inl .hang := by
+  intro k
+  induction k with
+  | zero => intro t _; simp [skipScan]
+  | succ k ih =>
+    intro t hL
+    unfold skipScan
+    split
+    · simp
+    · cases hf : failOnCheck p fo t with
+      | none => exact absurd hf (failOnCheck_nohang_ge hfo _ hL)
+      | some b =>
+        cases b with
+        | true => simp
+        | false =>
+          simp only
+          cases hi : ignStep p slen ig t with
+          | inl o => simp only; intro ho; simp at ho; subst ho; exact ignStep_nohang_ge hadv hb hig _ hL hi
+          | inr t' =>
+            have ht' := ignStep_adv hadv _ _ _ _ hi
+            simp only
+            cases h0 : p x t' false false with
+            | ok l ts' => simp
+            | fail c l =>
+              cases c
+              · exact ih _ (by omega)
+              · simp
+              · simp
+            | idx => exact ih _ (by omega)
+            | hang => exact absurd h0 (hx _ (by omega) _ _)
+
+theorem skipToImpl_nohang_ge {p : P} (s : List Char) (acts : Bool) (x : Nat) (incl : Bool) (fo ig : Option Nat) (loc : Nat)
+    (hadv : Adv p) (hb : BndAll s.length p) (hx : NHge p x loc) (hfo : ∀ n, fo = some n → NHge p n loc)
+    (hig : ∀ n, ig = some n → NHge p n loc) : skipToImpl p s acts x incl fo ig loc ≠ .hang := by
+  unfold skipToImpl
+  have hs := skipScan_nohang_ge s.length x fo ig loc hadv hb hx hfo hig (s.length + 2) loc (Nat.le_refl _)
+  have hge := (skipScan_adv hadv s.length x fo ig loc (s.length + 2) loc).1
+  generalize skipScan p s.length x fo ig loc (s.length + 2) loc = r at hs hge
+  cases r with
+  | inl o => simp only; intro ho; subst ho; exact hs rfl
+  | inr t =>
+    have := hge t rfl
+    simp only
+    split
+    · cases h0 : p x t acts false with
+      | ok l ts' => simp
+      | fail c l => simp
+      | idx => simp
+      | hang => exact absurd h0 (hx _ this _ _)
+    · simp
+
 /-! ### `parseImpl`, `_parseNoCache` -/
 
 /-- `And`'s test for `_ErrorStop` operands, as `parseImpl` passes it -/
@@ -452,7 +546,7 @@ def stopFn (g : Grammar) : Nat → Bool := fun i =>
     | _ => false)
   | none => false
 
-/-- what one node needs of the recursive call when it is entered at a location `≥ L` (SkipTo is not covered) -/
+/-- what one node needs of the recursive call when it is entered at a location `≥ L` -/
 structure NodeOkGe (p : P) (g : Grammar) (nd : Node) (slen L : Nat) : Prop where
   ign : ∀ e ∈ nd.ignore, NHge p e L ∧ IgnAdv p e
   kids : (∀ es, nd.kind ≠ .and es) → ∀ c ∈ nd.kind.children, NHge p c L
@@ -461,7 +555,6 @@ structure NodeOkGe (p : P) (g : Grammar) (nd : Node) (slen L : Nat) : Prop where
       (¬ SAdv p e0 → AndOk p (stopFn g) slen rest L)
   many : ∀ x ne one, nd.kind = .many x ne one → ManyAdv p nd slen x
   ss : nd.kind = .stringStart → nd.ignore = []
-  noSkip : ∀ x i fo ig, nd.kind ≠ .skipTo x i fo ig
 
 theorem NodeOkGe.mono {p : P} {g : Grammar} {nd : Node} {slen L L' : Nat} (h : NodeOkGe p g nd slen L) (hl : L ≤ L') :
     NodeOkGe p g nd slen L' :=
@@ -470,7 +563,7 @@ theorem NodeOkGe.mono {p : P} {g : Grammar} {nd : Node} {slen L L' : Nat} (h : N
    fun e0 rest hk => ⟨(h.and e0 rest hk).1.mono hl,
      fun hs l hLl hls y hy => (h.and e0 rest hk).2.1 hs l (by omega) hls y hy,
      fun hs => ((h.and e0 rest hk).2.2 hs).mono hl⟩,
-   h.many, h.ss, h.noSkip⟩
+   h.many, h.ss⟩
 
 theorem parseImpl_nohang_ge {p : P} (g : Grammar) (nd : Node) (s : List Char) (hadv : Adv p) (hb : BndAll s.length p)
     (loc : Nat) (hn : NodeOkGe p g nd s.length loc) (acts : Bool) : parseImpl g p nd s loc acts ≠ .hang := by
@@ -478,9 +571,8 @@ theorem parseImpl_nohang_ge {p : P} (g : Grammar) (nd : Node) (s : List Char) (h
   have hkids := hn.kids
   have hand := hn.and
   have hss := hn.ss
-  have hns := hn.noSkip
   unfold parseImpl
-  cases hkd : nd.kind <;> simp only [hkd] at hkids hand hss hns ⊢
+  cases hkd : nd.kind <;> simp only [hkd] at hkids hand hss ⊢
   case lit m => exact litImpl_nohang _ _ _
   case lit1 c => exact lit1Impl_nohang _ _ _
   case empty => simp
@@ -567,7 +659,10 @@ theorem parseImpl_nohang_ge {p : P} (g : Grammar) (nd : Node) (s : List Char) (h
     exact enhanceImpl_nohang_ge _ _ _ (by intro e h; simp at h; subst h; exact hkids (by intro es' h; cases h) _ (by simp [Kind.children]))
   case forward x =>
     exact enhanceImpl_nohang_ge _ _ _ (by intro e h; subst h; exact hkids (by intro es' h; cases h) _ (by simp [Kind.children]))
-  case skipTo x incl fo ig => exact absurd rfl (hns x incl fo ig)
+  case skipTo x incl fo ig =>
+    refine skipToImpl_nohang_ge _ _ _ _ _ _ _ hadv hb (hkids (by intro es' h; cases h) x (by simp [Kind.children])) ?_ ?_
+    · intro n h; subst h; exact hkids (by intro es' h; cases h) n (by simp [Kind.children])
+    · intro n h; subst h; exact hkids (by intro es' h; cases h) n (by simp [Kind.children])
 
 /-- one level of `_parseNoCache`, entered at `loc` -/
 theorem parseStep_nohang_ge {p : P} (g : Grammar) (s : List Char) (hadv : Adv p) (hb : BndAll s.length p)
